@@ -161,6 +161,7 @@ def universe(tier):
     yield from longgaps(tier)
     yield from mixedgaps(tier)
     yield from precsame(tier)
+    yield from samepred(tier)
 
 
 LONG_GAPS = ["1m", "2m", "1.5m", "1y", "5w", "45d", "1000h", "0.5y"]
@@ -250,7 +251,37 @@ def precsame_spec(it):
     return {"dur": "4w", "alap": it["alap"], "resources": [{"id": "r1"}, {"id": "r2"}, {"id": "r3"}], "tasks": [p1, p2, rel]}
 
 
+def samepred(tier):
+    """the SAME predecessor named at several levels of the task tree with different gaps / kinds (every edge applies)"""
+    for outer_gap in ("3d", "1d", None):
+        for inner_gap in ("2h", None, "2d"):
+            if outer_gap == inner_gap:
+                continue
+            for depth in (1, 2):
+                for alap in (False, True):
+                    for onstart_inner in ((False, True) if not alap else (False,)):
+                        yield {"kind": "samepred", "og": outer_gap, "ig": inner_gap, "depth": depth, "alap": alap, "osi": onstart_inner}
+
+
+def samepred_spec(it):
+    def dep(g, onstart=False):
+        d = {"ref": "x"}
+        if g:
+            d["gap"] = g
+        if onstart:
+            d["onstart"] = True
+        return d
+    leaf = lambda i, m, r, **kw: {"id": i, "effort": m, "alloc": [r], **kw}  # noqa: E731
+    e = leaf("e", 60, "r2", deps=[dep(it["ig"], it["osi"])])
+    f = leaf("f", 60, "r3")
+    inner = [e, f] if it["depth"] == 1 else [{"id": "inner", "deps": [dep("1d")], "children": [e]}, f]
+    outer = {"id": "outer", "deps": [dep(it["og"])], "children": inner}
+    return {"dur": "4w", "alap": it["alap"], "resources": [{"id": "r1"}, {"id": "r2"}, {"id": "r3"}], "tasks": [leaf("x", 120, "r1"), outer]}
+
+
 def to_spec(it):
+    if it.get("kind") == "samepred":
+        return samepred_spec(it)
     if it.get("kind") == "precsame":
         return precsame_spec(it)
     if it.get("kind") == "mixedgap":
